@@ -249,6 +249,12 @@ def compare(what, per, recs, tg, ran, top, is_replay, structure=True):
             w2 = [l.rstrip() for l in tg[nm]['lines2']]
             if (is_replay and got in (w2, want + w2)) or (not is_replay and got == want + w2):
                 continue
+            if not is_replay and got == w2:
+                # the viewer got to this target's log only after the second build of the same run had replaced it (one log per
+                # target): the first build's lines are never shown live.  By design, and a loss by the letter of C18: keyed.
+                anoms.append(dict(key='%s:lines-of-an-earlier-build-in-the-same-run-not-shown' % what,
+                                  what='%s was force-rebuilt twice in this run; the live output shows the second build only (%d lines of the first build are not shown)' % (nm, len(want))))
+                continue
         # describe the first difference
         k = next((i for i, (a, b) in enumerate(zip(got, want)) if a != b), min(len(got), len(want)))
         gs, ws = set(got), set(want)
@@ -897,6 +903,13 @@ def replay(path):
     common.ensure_built()
     common.ensure_native()
     r = dispatch(tuple(d['replay']['item']))
+    from ..framework import load_known
+    known = set(k['key'] for k in load_known() if k.get('property') == PROP and k.get('status') == 'known')
+    for v in (r.get('violations') or []):
+        if v.get('key') in known:
+            print('KNOWN-FINDING: property=%s %s [%s]' % (PROP, v.get('what', '')[:200], v.get('key')))
+    if r.get('verdict') == 'violated' and all(v.get('key') in known for v in (r.get('violations') or [])):
+        r = dict(r, verdict='held', violations=None)
     print(r.get('verdict'), r.get('violations') or r.get('why'))
     common.cleanup_scratch()
     if r.get('verdict') == 'violated':
